@@ -75,11 +75,16 @@ def runL (line : String) : String :=
       let doc := (if hx == "-" then [] else unhexBytes hx).toArray
       match rangesOf (natOf n) (nums.map natOf) with
       | some (rs, _) =>
-        let l : Lexer := {}
-        let (l, ok) := l.setIncludedRanges rs
-        let l := l.setInput
-        let tr := runScript (mkRead doc ch) l ((script.splitOn " ").filter (· ≠ ""))
-        s!"{id} set={if ok then 1 else 0} trace={";".intercalate tr}"
+        let runV := fun (fixed : Bool) =>
+          let l : Lexer := { skipEmpty := fixed }
+          let (l, ok) := l.setIncludedRanges rs
+          let l := l.setInput
+          let tr := runScript (mkRead doc ch) l ((script.splitOn " ").filter (· ≠ ""))
+          s!" set={if ok then 1 else 0} trace={";".intercalate tr}"
+        -- the code as it is, and (second line, only when different) with fixes/C13-empty-range-boundary.diff
+        let a := runV false
+        let f := runV true
+        if a == f then id ++ a else id ++ a ++ "\n" ++ id ++ "#F" ++ f
       | none => s!"{id} set=BADINPUT"
     | _ => "? set=BADINPUT"
   | [head] =>
@@ -179,7 +184,14 @@ def runCase (s : St) : String :=
       let cause := if col && st.fail.isSome then "-"
         else if st.fail.isNone && st.quirks == 0 then "-"
         else if !onB && s.hasE && effOk && stE.isNone then "char-splitting-range-boundary"
-        else if st.fail.isNone then "empty-range-boundary"
+        else if st.fail.isNone && errBoth then "error-recovery"   -- erroneous on both sides: ERROR/MISSING nodes sit at the left image of a seam
+        else if st.fail.isNone then
+          -- a boundary on a range with start = end (repaired by fixes/C13-empty-range-boundary.diff), or only on
+          -- ranges that start at/after the end of the document (not repaired)
+          (if st.quirkPos.any (fun p => (trueEmptyPositions given).contains p &&
+                !(given.any fun r => r.start_byte == p && r.end_byte > r.start_byte && r.start_byte ≥ s.doc.size))
+           then "empty-range-boundary"
+           else "range-beyond-eof-boundary")
         else if errBoth then "error-recovery"
         else "other"
       s!"{s.id} setter={setter} reported={reported} concat={concatOk} shape={shape} pos={pos} cause={cause} accepted=1 err={if err then 1 else 0} nranges={n} neff={es.length} onb={if onB then 1 else 0} effok={if effOk then 1 else 0} nodes={st.nodes} leaves={st.leaves} gapleaves={st.gapLeaves} quirks={st.quirks} col={if col then 1 else 0} colsens={if anyColumn r.root || anyColumn c.root then 1 else 0} fit={if fit then 1 else 0} rc={if rc then "ok" else "bad"} sc={if sc then "ok" else "bad"}"
